@@ -71,6 +71,8 @@ pub struct SView<'a> {
     pub adaptor_yields: usize,
     /// some id's history is ambiguous (expiry / internal cancel racing a reuse of the id): count-based checks are skipped
     pub tainted_any: bool,
+    /// responses transmitted more than a timer granule after the request's deadline (and read time)
+    pub late_responses: Vec<String>,
 }
 
 fn parse_inst(text: &str, key: &str) -> Option<usize> {
@@ -86,8 +88,11 @@ impl<'a> SView<'a> {
         // ids for which the order of an expiry / internal cancellation and a reuse of the id is not
         // determined by the history: every instance with such an id is exempt from per-instance checks
         let mut tainted: std::collections::BTreeSet<u64> = Default::default();
+        // tainted id -> latest deadline among the instances that may be the tracked one
+        let mut amb_deadline: BTreeMap<u64, i128> = BTreeMap::new();
         let mut quiescent = vec![];
         let mut model_violations = vec![];
+        let mut late_responses = vec![];
         let mut consumer_polls = vec![];
         let mut cur_consumer_start: Option<usize> = None;
         let mut stream_end_seq = None;
@@ -133,8 +138,8 @@ impl<'a> SView<'a> {
                     }
                     let exp: Vec<(u64, usize)> = tracked
                         .iter()
-                        .filter(|(_, &i)| {
-                            let d = run.insts[i].deadline_ns;
+                        .filter(|(id, &i)| {
+                            let d = run.insts[i].deadline_ns.max(amb_deadline.get(*id).copied().unwrap_or(i128::MIN));
                             let rt = tl[i].read.map(|x| x.1 as i128).unwrap_or(0);
                             now >= d.max(rt) + GRAN_NS
                         })
@@ -173,6 +178,8 @@ impl<'a> SView<'a> {
                                     if tl[other].end.is_none() {
                                         tl[other].end = Some(End::Expired { seq: r.seq, t_ns: r.t_ns });
                                     }
+                                    let dmax = d.max(run.insts[i].deadline_ns).max(amb_deadline.get(id).copied().unwrap_or(i128::MIN));
+                                    amb_deadline.insert(*id, dmax);
                                     tracked.insert(*id, i);
                                     tl[i].dup_ignored = false;
                                     tl[i].ambiguous_dup = true;
@@ -205,6 +212,14 @@ impl<'a> SView<'a> {
                                 tl[i].throttled = true;
                             }
                             if tl[i].end.is_none() {
+                                let d = run.insts[i].deadline_ns;
+                                let rt = tl[i].read.map(|x| x.1 as i128).unwrap_or(0);
+                                if !thr && !tl[i].ambiguous_dup && !tainted.contains(id) && now >= d.max(rt) + GRAN_NS {
+                                    late_responses.push(format!(
+                                        "seq {}: Response for request instance {i} (id {id}) transmitted at t={now}ns, more than a timer granule after its deadline {d}ns (read at {rt}ns)",
+                                        r.seq
+                                    ));
+                                }
                                 tl[i].end = Some(End::Responded { seq: r.seq, t_ns: r.t_ns, result: result.clone(), write_ok });
                             } else if !tainted.contains(id) {
                                 model_violations.push(format!(
@@ -258,6 +273,11 @@ impl<'a> SView<'a> {
                 tl[i].ambiguous_dup = true;
             }
         }
+        if std::env::var("VERIF_DUMP").is_ok() {
+            for r in &run.recs {
+                eprintln!("{} {} {}", r.seq, r.t_ns, serde_json::to_string(&r.ev).unwrap_or_default());
+            }
+        }
         let adaptor_yields = run
             .recs
             .iter()
@@ -275,6 +295,7 @@ impl<'a> SView<'a> {
             channel_dropped_seq,
             adaptor_yields,
             tainted_any: !tainted.is_empty(),
+            late_responses,
         }
     }
 
